@@ -131,6 +131,14 @@ func expandC09(_ *testing.T, seed uint64, tier string) []*core.Plan {
 		p.Items = append(p.Items, core.Item{K: "access"})
 		p.Items = append(p.Items, core.Item{K: r.PickS("close", "close", "disc", "bdrop", "none")})
 	}
+	// a third of the failing sends are quiet: the write fails and the link stays
+	// up and silent (drawn from a stream of its own: the other plans stay as they were)
+	rq := core.NewRand(core.Derive(seed, "quiet"))
+	for i, it := range p.Items {
+		if it.K == "dialcfg" && it.D > 0 && rq.Chance(1, 3) {
+			p.Items[i].B = (it.B &^ 64) | 128
+		}
+	}
 	return []*core.Plan{p}
 }
 
@@ -246,7 +254,7 @@ func runC09(t *testing.T, p *core.Plan) *core.Result {
 			switch it.K {
 			case "dialcfg":
 				nextDial = DialBehaviour{Connack: it.A, Refuse: it.B&1 != 0, ConnectUnsendable: it.B&2 != 0,
-					SubFail: it.B&16 != 0, SessionPresent: it.B&32 != 0, DropAfterRecv: it.C, FailSendN: it.D, FailSendPost: it.B&64 != 0}
+					SubFail: it.B&16 != 0, SessionPresent: it.B&32 != 0, DropAfterRecv: it.C, FailSendN: it.D, FailSendPost: it.B&64 != 0, FailSendQuiet: it.B&128 != 0}
 				if it.B&4 != 0 {
 					nextDial.AckMode = 1
 				}
